@@ -388,6 +388,8 @@ pub struct OrderReq {
     /// Decrease: final output token (defaults to the collateral token).
     pub final_output_token: Option<Pubkey>,
     pub valid_from_ts: Option<i64>,
+    /// Receiver of the order's outputs (defaults to the owner).
+    pub receiver: Option<Pubkey>,
 }
 
 impl OrderReq {
@@ -406,6 +408,7 @@ impl OrderReq {
             acceptable_price: None,
             final_output_token: None,
             valid_from_ts: None,
+            receiver: None,
         }
     }
 }
@@ -478,8 +481,12 @@ impl World {
         for t in &escrow_tokens {
             ixs.push(self.prepare_ata_ix(owner, order, *t));
         }
+        let receiver = req.receiver.unwrap_or(owner);
         for t in final_output_token.iter().chain(long_token.iter()).chain(short_token.iter()) {
             ixs.push(self.prepare_ata_ix(owner, owner, *t));
+            if receiver != owner {
+                ixs.push(self.prepare_ata_ix(owner, receiver, *t));
+            }
         }
         if is_increase {
             ixs.push(six(
@@ -496,7 +503,7 @@ impl World {
         let mut create = six(
             sa::CreateOrderV2 {
                 owner,
-                receiver: owner,
+                receiver,
                 store,
                 market: m.market,
                 user: self.user_pda(&owner),
